@@ -74,7 +74,7 @@ def _layout_src(prefix, model, layout):
     def g(k, d):
         v = model.get("%s_%s" % (prefix, k), d)
         return d if v is None else v
-    return ", pos=%r, size=%r, head=%r, tail=%r" % (g("pos", 0), g("size", 0), g("head", ""), g("tail", ""))
+    return ", pos=%r, size=%r, head=%r, tail=%r" % (g("pos", 0), g("size", 0), g("head", "") or " ", g("tail", "") or "  ")
 
 
 def child_code(prefix, model, layout="sym"):
